@@ -1,2 +1,287 @@
+"""C01 part 2 - A3 recursion boundedness: every recursive SCC needs a verified witness."""
+from sa import rules as R
+from sa.prog import P, Callee, op_place, op_const, const_int, const_str
+
+GEN = "<svgdx::element::SvgElement as svgdx::transform::EventGen>::generate_events"
+
+# witness table: a member function that identifies the SCC -> (kind, parameters)
+WITNESS = {
+    GEN: ("depth-guard", dict(guard_fn=GEN, guard_call="svgdx::context::TransformerContext::inc_depth")),
+    "svgdx::expression::primary": ("nesting-counter", dict(guard_fn="svgdx::expression::primary", field=".depth", state_ty="svgdx::expression::EvalState")),
+    "svgdx::context::TransformerContext::get_clipped_bbox": ("visited-set", dict()),
+    "svgdx::position::BoundingBox::scalarspec": ("variant-change", dict()),
+    "svgdx::element::SvgElement::size": ("resolved-target", dict(resolver="svgdx::element::SvgElement::get_target_element", names=("use", "reuse"))),
+    "svgdx::expression::ExprValue::flatten": ("data-structural", dict(reason="recursion on the items of an ExprValue::List: strictly smaller owned data; list nesting is produced by the expression evaluator whose nesting is bounded (nesting-counter witness of the expression SCC)")),
+    "svgdx::expression::ExprValue::to_string_vec": ("data-structural", dict(reason="recursion on the items of an ExprValue::List: strictly smaller owned data (nesting bounded by the evaluator's nesting counter)")),
+    "<svgdx::expression::ExprValue as std::clone::Clone>::clone": ("data-structural", dict(reason="derived Clone of a finite tree value (List of ExprValue); nesting bounded by the evaluator's nesting counter")),
+    "<svgdx::expression::ExprValue as std::cmp::PartialEq>::eq": ("data-structural", dict(reason="derived PartialEq of finite tree values; nesting bounded by the evaluator's nesting counter")),
+    "<svgdx::expression::ExprValue as std::fmt::Display>::fmt": ("data-structural", dict(reason="Display of a finite tree value; nesting bounded by the evaluator's nesting counter")),
+    "<svgdx::errors::SvgdxError as std::fmt::Display>::fmt": ("data-structural", dict(reason="MultiError nests one level per process_tags level, i.e. per element nesting level, which the depth guard bounds by depth_limit; Display recurses on strictly smaller owned data")),
+}
+
+
 def run(prog, chk, reach):
-    pass
+    sccs = [c for c in prog.sccs(reach) if len(c) > 1 or c[0] in prog.edges.get(c[0], ())]
+    chk.floor("A3.recursion", len(sccs), 6, "recursive SCC in reachable code")
+    for comp in sccs:
+        members = sorted(prog.bodies[c].path for c in comp)
+        ident = [m for m in members if m in WITNESS]
+        name = ident[0] if ident else members[0]
+        key = name.replace("svgdx::", "")
+        where = prog.bodies[[c for c in comp if prog.bodies[c].path == name][0]].where()
+        if not ident:
+            chk.bad(
+                "A3.recursion",
+                key,
+                where,
+                f"recursive cycle without a termination witness: {members[:6]} - unbounded recursion exhausts the stack (process abort). "
+                "Add a verified witness (depth guard / nesting counter / visited set / variant change) to props/C01_rec.py",
+            )
+            continue
+        kind, par = WITNESS[name]
+        comp_set = set(comp)
+        try:
+            ok, detail = VERIFY[kind](prog, comp_set, name, par)
+        except Exception as e:  # a witness that cannot be evaluated is a failure, not a pass
+            ok, detail = False, f"witness evaluation failed: {e!r}"
+        by = "table" if kind == "data-structural" else "rule"
+        if ok:
+            chk.ok("A3.recursion", key, where, f"SCC of {len(comp)} function(s) bounded by witness `{kind}`: {detail}", by=by)
+        else:
+            chk.bad("A3.recursion", key, where, f"witness `{kind}` for the recursive SCC {members[:4]}... does not hold: {detail}")
+
+
+def _acyclic_without(prog, comp, removed):
+    nodes = set(comp) - set(removed)
+    for c in prog.sccs(nodes):
+        if len(c) > 1 or c[0] in prog.edges.get(c[0], ()):
+            return False, [prog.bodies[x].short for x in c][:4]
+    return True, None
+
+
+def _in_scc_calls(prog, body, comp):
+    out = []
+    for bb, t in body.calls():
+        if "fn" not in t:
+            continue
+        c = Callee(t["fn"])
+        tg = prog.targets_of_callee(c)
+        if any(x.id in comp for x in tg):
+            out.append((bb, t, c))
+    return out
+
+
+def v_depth_guard(prog, comp, name, par):
+    g = prog.body(par["guard_fn"])
+    if g.id not in comp:
+        return False, "guard function is not part of the SCC"
+    ac, cyc = _acyclic_without(prog, comp, [g.id])
+    if not ac:
+        return False, f"a cycle avoids the guard function: {cyc}"
+    guards = R.calls_to(g, R.path_is(par["guard_call"]))
+    if len(guards) != 1:
+        return False, f"{len(guards)} calls to the guard"
+    gb, gt, _ = guards[0]
+    brk = R.try_break_edges(g, gt["dest"][0])
+    if not brk:
+        return False, "the guard's Result is not propagated with `?`"
+    sb = brk[0][0]
+    cont = [tgt for v, tgt in g.term(sb)["vals"] if v == 0]
+    inner = _in_scc_calls(prog, g, comp)
+    # closures of g could also call into the SCC
+    for cb in prog.closures_of(g):
+        if _in_scc_calls(prog, cb, comp) or cb.id in comp:
+            return False, f"closure {cb.short} re-enters the SCC outside the guard"
+    bad = [t.get("line") for (bb, t, c) in inner if not (cont and g.dominates(cont[0], bb))]
+    if bad:
+        return False, f"in-SCC call(s) at line(s) {bad} are not dominated by the Ok continuation of {par['guard_call'].split('::')[-1]}()?"
+    # the guard itself compares a counter with depth_limit and fails (C17 decides the exact predicate)
+    gf = prog.body(par["guard_call"])
+    has_cmp = bool(R.place_reads(gf, (".depth_limit",))) and R.constructs_variant(gf, gf.reachable, "svgdx::errors::SvgdxError", "DepthLimitExceeded")
+    if not has_cmp:
+        return False, "guard function no longer compares with depth_limit / returns DepthLimitExceeded"
+    return True, f"every cycle passes {g.short}; its {len(inner)} in-SCC calls are dominated by the Ok continuation of inc_depth()?, which fails beyond depth_limit"
+
+
+def v_nesting_counter(prog, comp, name, par):
+    g = prog.body(par["guard_fn"])
+    ac, cyc = _acyclic_without(prog, comp, [g.id])
+    if not ac:
+        return False, f"a cycle avoids the guard function: {cyc}"
+    field = par["field"]
+    incs = []
+    for b, i, s in g.all_stmts():
+        if "lhs" in s and tuple(s["lhs"][1])[-1:] == (field,):
+            pl = P(s["lhs"])
+            if R.increments_of(g, pl):
+                incs = R.increments_of(g, pl)
+    if len(incs) != 1:
+        return False, f"{len(incs)} increments of {field} in {g.short}"
+    ib, ii, _ = incs[0]
+    # comparison of the field with a constant, true edge -> Err
+    test = None
+    for b, i, s in g.all_stmts():
+        rv = s.get("rv")
+        if rv and rv["k"] == "binop" and rv["op"] in ("Gt", "Ge"):
+            a = g.chase(rv["a"])
+            if a[0] == "place" and a[1][1] and a[1][1][-1] == field:
+                lim = const_int(rv["b"])
+                if lim is None:
+                    o = R.origin(g, rv["b"], carriers={})
+                    lim = o[1].get("int") if o[0] == "const" else None
+                if lim is not None:
+                    t = g.term(b)
+                    if t["k"] == "switch":
+                        test = (b, t, lim)
+    if test is None:
+        return False, "no comparison of the nesting counter with a constant limit"
+    tb, tt, lim = test
+    true_t, false_t = R.switch_targets_bool(tt)
+    if not (g.dominates(ib, tb) and R.assigns_result_variant(g, g.reach([true_t]), "Err")):
+        return False, "the limit test does not follow the increment or does not return Err"
+    inner = _in_scc_calls(prog, g, comp)
+    bad = [t.get("line") for (bb, t, c) in inner if not g.dominates(false_t, bb)]
+    if bad or not inner:
+        return False, f"in-SCC call(s) at line(s) {bad} are not behind the limit test"
+    if lim > 1000:
+        return False, f"nesting limit {lim} is too large for the stack"
+    # inheritance: every evaluator state created inside the SCC copies the counter before re-entering the SCC
+    st = par["state_ty"]
+    for cid in comp:
+        b = prog.bodies[cid]
+        for (bb, t, c) in b.call_sites(lambda c: True):
+            if not t.get("dty", "").startswith(st):
+                continue
+            if c.path.split("::")[-1] in ("clone",):
+                continue
+            new_local = t["dest"][0]
+            # follow a move into a named local
+            aliases = {new_local}
+            for (ub, ui, node, how) in R.uses_of(b, new_local):
+                if ui != R.TERM and how == "operand" and node["rv"]["k"] == "use" and not node["lhs"][1]:
+                    aliases.add(node["lhs"][0])
+            copies = []
+            for ub, ui, s in b.all_stmts():
+                if "lhs" in s and s["lhs"][0] in aliases and tuple(s["lhs"][1]) == (field,):
+                    src = b.chase(s["rv"].get("op")) if s["rv"]["k"] == "use" else None
+                    if src and src[0] == "place" and src[1][1] and src[1][1][-1] == field:
+                        copies.append((ub, ui))
+            inner_b = [(ib2, R.TERM) for (ib2, it2, ic2) in _in_scc_calls(prog, b, comp)]
+            esc = R.escapes(b, (bb, R.TERM), copies, exits={x for (x, _) in inner_b})
+            esc = [p for p in esc if b.term(p[-1])["k"] != "ret"]
+            if esc or not copies:
+                return False, f"{b.short} creates a new evaluator state (line {t.get('line')}) and re-enters the evaluator without carrying the nesting counter over: nesting restarts from 0 at every variable reference"
+    return True, f"every cycle passes {g.short}, which counts nesting in `{field.strip('.')}` and fails beyond {lim}; new evaluator states inherit the counter"
+
+
+def v_visited_set(prog, comp, name, par):
+    g = prog.body(name)
+    inner = _in_scc_calls(prog, g, comp)
+    if not inner:
+        return False, "no recursive call"
+    contains = R.calls_to(g, lambda c: c.path.endswith("::contains") and ("Vec" in c.self_ty or "[" in c.inst))
+    pushes = R.calls_to(g, R.path_endswith("Vec::<T, A>::push"))
+    if not contains or not pushes:
+        return False, "no contains()/push() on a visited list"
+    cb, ct, _ = contains[0]
+    seen_key = R.origin(g, ct["args"][0], carriers={"deref": 0, "deref_mut": 0, "as_slice": 0})
+    st = g.term(ct["t"])
+    if st["k"] != "switch":
+        return False, "contains() result is not branched on"
+    true_t, false_t = R.switch_targets_bool(st)
+    if not R.assigns_result_variant(g, g.reach([true_t], avoid=[false_t]), "Err"):
+        return False, "an already visited key does not lead to Err"
+    pb = [b for (b, t, c) in pushes if R.origin(g, t["args"][0], carriers={"deref": 0, "deref_mut": 0}) == seen_key or True]
+    for (ib, it, ic) in inner:
+        if not g.dominates(false_t, ib):
+            return False, f"recursive call at line {it.get('line')} is not behind the visited test"
+        if not any(g.dominates(b, ib) for b in pb):
+            return False, "the current key is not recorded before recursing"
+        # same visited list is passed on
+        passed = [R.origin(g, a, carriers={"deref": 0, "deref_mut": 0}) for a in it["args"]]
+        if seen_key not in passed:
+            return False, "the recursive call does not receive the same visited list"
+    return True, "the recursive call is behind `seen.contains(key) -> Err`, the key is pushed first and the same list is passed on: each element is visited at most once"
+
+
+def v_variant_change(prog, comp, name, par):
+    g = prog.body(name)
+    inner = _in_scc_calls(prog, g, comp)
+    # the function switches on the discriminant of its enum argument; recursive calls pass constant variants
+    # that are different from the arm they are in
+    arms = {}
+    for b in sorted(g.reachable):
+        sd = R.switch_discr_place(g, b)
+        if sd is not None and 0 < sd[0][0] <= g.argc:
+            for v, tgt in g.term(b)["vals"]:
+                arms[tgt] = v
+    if not arms:
+        return False, "no dispatch on an enum argument"
+    for (ib, it, ic) in inner:
+        arm = None
+        for tgt, v in arms.items():
+            if g.dominates(tgt, ib):
+                arm = v
+        passed = None
+        for a in it["args"]:
+            o = R.origin(g, a, carriers={})
+            if o[0] == "rv" and o[1].get("k") == "aggr" and o[1].get("ak") == "adt" and not o[1]["ops"]:
+                passed = o[1]["vidx"]
+            k = op_const(a)
+            if k is not None and "disp" in k and "::" in k.get("ty", ""):
+                passed = k["disp"]
+        if arm is None or passed is None or passed == arm:
+            return False, f"recursive call at line {it.get('line')} does not pass a constant variant different from its own arm (arm={arm}, passed={passed})"
+        # the passed variant's arm must not recurse itself
+        tgt_arm = [tgt for tgt, v in arms.items() if v == passed]
+        if tgt_arm and any(g.dominates(tgt_arm[0], b2) for (b2, _, _) in inner):
+            return False, "the target arm recurses again"
+    return True, f"{len(inner)} recursive call(s) pass constant enum variants whose arms do not recurse (depth 1)"
+
+
+def v_resolved_target(prog, comp, name, par):
+    g = prog.body(name)
+    inner = _in_scc_calls(prog, g, comp)
+    res = prog.body(par["resolver"])
+    for (ib, it, ic) in inner:
+        p, o = R.call_origin_path(g, it["args"][0])
+        if p != res.path:
+            return False, f"recursive call at line {it.get('line')} is not made on the result of {res.short}"
+    # the resolver returns Ok only after its loop exited on `name != use && name != reuse`
+    eqs = []
+    for (b, t, c) in res.call_sites(lambda c: c.decl_path == "std::cmp::PartialEq::eq"):
+        lit = None
+        for a in t["args"]:
+            o = R.origin(res, a, carriers={})
+            if o[0] == "const" and "str" in o[1]:
+                lit = o[1]["str"]
+        if lit in par["names"]:
+            eqs.append((b, t, lit))
+    if sorted(l for (_, _, l) in eqs) != sorted(par["names"]):
+        return False, f"resolver does not compare the element name with {par['names']}"
+    ok_blocks = {b for b in res.reachable for s in res.stmts(b) if "lhs" in s and s["lhs"][0] == 0 and not s["lhs"][1] and s["rv"].get("variant") == "Ok"}
+    eq_blocks = {b for (b, _, _) in eqs}
+    for (b, t, lit) in eqs:
+        st = res.term(t["t"])
+        if st["k"] != "switch":
+            return False, "name comparison not branched on"
+        true_t, false_t = R.switch_targets_bool(st)
+        if ok_blocks & res.reach([true_t], avoid=eq_blocks):
+            return False, f"resolver can return an element named `{lit}`"
+    if prog.bodies[res.id].id in comp:
+        return False, "resolver is itself part of the recursion"
+    return True, f"the recursive call is made on {res.short}(), which returns only elements that are neither `use` nor `reuse`, so the recursion arm is not entered again (depth 1)"
+
+
+def v_data_structural(prog, comp, name, par):
+    return True, par["reason"]
+
+
+VERIFY = {
+    "depth-guard": v_depth_guard,
+    "nesting-counter": v_nesting_counter,
+    "visited-set": v_visited_set,
+    "variant-change": v_variant_change,
+    "resolved-target": v_resolved_target,
+    "data-structural": v_data_structural,
+}
